@@ -202,17 +202,90 @@ fn enumerate(tier: Tier) -> Box<dyn Iterator<Item = Case>> {
     }))
 }
 
+// ------------------------------------------------------------------ realistic stream
+
+fn real_patterns() -> Vec<&'static str> {
+    crate::props::c17::SEED_PKGDEPS.lines().filter(|l| l.contains(['<', '>']) && !l.contains(['{', '}'])).collect()
+}
+fn real_names() -> Vec<&'static str> {
+    crate::props::c17::SEED_PKGNAMES.lines().filter(|l| !l.is_empty()).collect()
+}
+
+fn real_strategy(_t: Tier) -> BoxedStrategy<Case> {
+    let pats = real_patterns();
+    let names = real_names();
+    (0..pats.len(), 0..names.len(), 0u8..10, any::<u16>())
+        .prop_map(move |(i, j, mode, sel)| {
+            let pattern = pats[i].to_string();
+            let base: String = pattern.chars().take_while(|c| *c != '<' && *c != '>').collect();
+            let nm = names[j];
+            let ver = nm.rsplit('-').next().unwrap_or("");
+            let name = match mode {
+                // the real base with the version of some real package
+                0..=4 => format!("{}-{}", base, ver),
+                // the real base with one of the pattern's own bounds (+ a revision)
+                5..=6 => {
+                    let bounds: Vec<&str> = pattern[base.len()..].split(['<', '>', '=']).filter(|b| !b.is_empty()).collect();
+                    let b = if bounds.is_empty() { "" } else { bounds[crate::engine::gen::idx(sel, bounds.len())] };
+                    if sel % 2 == 0 { format!("{}-{}", base, b) } else { format!("{}-{}nb{}", base, b, sel % 3) }
+                }
+                // an unrelated real package
+                _ => nm.to_string(),
+            };
+            Case { pattern, name }
+        })
+        .boxed()
+}
+
+/// real pkgsrc patterns carry letter suffixes, so the KF-1 leniency of C01 applies here
+pub fn check_real(c: &Case, obs: &mut Obs) -> Result<(), String> {
+    let (p, n) = (c.pattern.as_str(), c.name.as_str());
+    let Ok(dm) = m::dewey_compile(p) else {
+        obs.excluded = true;
+        return Ok(());
+    };
+    if p.contains(['{', '}']) || crate::models::dewey::longest_digit_run(p) > 18 || crate::models::dewey::longest_digit_run(n) > 18 {
+        obs.excluded = true;
+        return Ok(());
+    }
+    let want = m::dewey_matches(&dm, n, Letters::Rank);
+    let ascii = m::dewey_matches(&dm, n, Letters::AsciiLower);
+    let pp = Pattern::new(p).map_err(|e| format!("real pattern {:?} rejected: {}", p, e))?;
+    let dd = Dewey::new(p).map_err(|e| format!("real pattern {:?} rejected by Dewey: {}", p, e))?;
+    for (what, got) in [("Pattern", pp.matches(n)), ("Dewey", dd.matches(n))] {
+        obs.verdicts += 1;
+        if got == want {
+            continue;
+        }
+        if want != ascii && got == ascii {
+            obs.known_hits.push(crate::props::c01::KF1);
+            continue;
+        }
+        return Err(format!("{} {:?} matches({:?}) = {}, model says {}", what, p, n, got, want));
+    }
+    obs.nontrivial = n.contains('-');
+    obs.class(if want { "match" } else { "no-match" });
+    if dm.bounds.len() == 2 {
+        obs.class("two-bounds");
+    }
+    if n.rsplit('-').next().map(|v| v.chars().any(|c| c.is_ascii_alphabetic())).unwrap_or(false) {
+        obs.class("version-with-letters");
+    }
+    Ok(())
+}
+
 pub fn property() -> Property {
     Property {
         id: "C02",
-        rule: "Patterns = base (14 bases incl. empty, with '-', '--', non-ASCII, glob characters) followed by 0-3 operators, each any of < <= > >=, with bounds from a letter-free pool incl. the empty bound (so all 16 two-operator orders, adjacent operators and the 0/3-operator errors occur), occasionally followed by '=', '-', non-ASCII. Names = related base (equal 55%, proper prefix / suffix, extended by -x, first '-'-segment, case-flipped, prefixed, unrelated) + '-' + version from the pool, or without any '-'. Oracle: M-dewey-pattern (compile: Ok/Err must agree for Dewey::new and Pattern::new; matches: Dewey::matches = Pattern::matches = model). A second stream enumerates the product space completely. Non-trivial = the pattern is rejected, or it compiles and the name has a '-'. Distinct = distinct (pattern, name).",
+        rule: "Patterns = base (14 bases incl. empty, with '-', '--', non-ASCII, glob characters) followed by 0-3 operators, each any of < <= > >=, with bounds from a letter-free pool incl. the empty bound (so all 16 two-operator orders, adjacent operators and the 0/3-operator errors occur), occasionally followed by '=', '-', non-ASCII. Names = related base (equal 55%, proper prefix / suffix, extended by -x, first '-'-segment, case-flipped, prefixed, unrelated) + '-' + version from the pool, or without any '-'. Oracle: M-dewey-pattern (compile: Ok/Err must agree for Dewey::new and Pattern::new; matches: Dewey::matches = Pattern::matches = model). A second stream enumerates the product space completely; a third pairs ~1 800 real pkgsrc dewey patterns with real package versions and with their own bounds (letters allowed, KF-1 region judged as in C01). Non-trivial = the pattern is rejected, or it compiles and the name has a '-'. Distinct = distinct (pattern, name).",
         assumptions: vec![
             "bounds and versions are letter-free, so known finding KF-1 cannot influence a verdict",
             "M-dewey-pattern and M-dewey are written from the statements of C02 / C01",
         ],
         streams: vec![
-            random_stream("random", "random (pattern, name) pairs", case_strategy, |t| t.pick(80_000, 2_000_000), check),
+            random_stream("random", "random (pattern, name) pairs", case_strategy, |t| t.pick(200_000, 2_000_000), check),
             enumerated_stream("enumerated", "complete product: bases x operator shapes x bounds x base relations x versions", enumerate, check),
+            random_stream("realistic", "real pkgsrc dewey patterns (sample of tests/data/pkgdeps.txt) against real package versions (pkgnames.txt), KF-1 leniency as in C01", real_strategy, |t| t.pick(60_000, 1_000_000), check_real),
         ],
         selfcheck: m::selfcheck,
         hang_is_violation: false,
